@@ -1,15 +1,1615 @@
-/- Helper lemmas for Properties/C19.lean (single Mathlib modules allowed here). -/
+/- Helper lemmas for Properties/C19.lean (single Mathlib modules allowed here).
+
+Contents: (1) Python int operators of Base/PyInt.lean are the two's-complement bit operations / masks;
+(2) the reference parser: fuel monotonicity, "eventually returns" introduction rules, the print/parse lemma
+`parse_pr` (parsing at level k a text printed for level m >= k consumes exactly the printed expression and continues the
+loop at level k), an explicit fuel bound (three units per consumed token), and the same for the bool level. -/
 import Mathlib.Data.Int.Bitwise
 import SpsdkVerif.Spec.BdSem
 import SpsdkVerif.Spec.BdStmtSem
 
 namespace SpsdkVerif.Bd
-open SpsdkVerif SpsdkVerif.Generated
+variable (L : Levels)
+
+theorem parsePrimary_succ (f : Nat) (ts : List Tok) :
+    parsePrimary L (f + 1) ts =
+    (match ts with
+    | .num n :: ts' => some (.lit n, ts')
+    | .ident x :: ts' => some (.var x, ts')
+    | .lparen :: ts' =>
+      (match parseExpr L f 0 ts' with
+       | some (e, .rparen :: ts'') => some (e, ts'')
+       | _ => none)
+    | .op .sub :: ts' =>
+      (match parseExpr L f (L.neg + 1) ts' with
+       | some (e, ts'') => some (.neg e, ts'')
+       | none => none)
+    | .op .add :: ts' =>
+      (match parseExpr L f (L.pos + 1) ts' with
+       | some (e, ts'') => some (.pos e, ts'')
+       | none => none)
+    | _ => none) := by
+  rfl
+
+theorem parseExpr_succ (f m : Nat) (ts : List Tok) :
+    parseExpr L (f + 1) m ts =
+    (match parsePrimary L f ts with
+    | some (l, ts') => parseLoop L f m l ts'
+    | none => none) := by
+  rfl
+
+theorem parseLoop_succ (f m : Nat) (l : Expr) (ts : List Tok) :
+    parseLoop L (f + 1) m l ts =
+    (match ts with
+    | .op o :: ts' =>
+      if m ≤ L.bin o then
+        (match parseExpr L f (L.bin o + 1) ts' with
+         | some (r, ts'') => parseLoop L f m (.bin o l r) ts''
+         | none => none)
+      else some (l, ts)
+    | .dot :: .isize s :: ts' =>
+      if m = 0 then parseLoop L f m (.size s l) ts' else some (l, ts)
+    | _ => some (l, ts)) := by
+  rfl
+
+theorem mono_all : ∀ f,
+    (∀ ts r, parsePrimary L f ts = some r → parsePrimary L (f+1) ts = some r) ∧
+    (∀ m ts r, parseExpr L f m ts = some r → parseExpr L (f+1) m ts = some r) ∧
+    (∀ m l ts r, parseLoop L f m l ts = some r → parseLoop L (f+1) m l ts = some r) := by
+  intro f
+  induction f with
+  | zero =>
+    refine ⟨?_, ?_, ?_⟩
+    · intro ts r h; simp [parsePrimary] at h
+    · intro m ts r h; simp [parseExpr] at h
+    · intro m l ts r h; simp [parseLoop] at h
+  | succ f ih =>
+    obtain ⟨ihP, ihE, ihL⟩ := ih
+    refine ⟨?_, ?_, ?_⟩
+    · intro ts r h
+      rw [parsePrimary_succ] at h ⊢
+      split at h
+      · exact h
+      · exact h
+      · split at h
+        · next e ts'' heq => rw [ihE _ _ _ heq]; exact h
+        · simp at h
+      · split at h
+        · next e ts'' heq => rw [ihE _ _ _ heq]; exact h
+        · simp at h
+      · split at h
+        · next e ts'' heq => rw [ihE _ _ _ heq]; exact h
+        · simp at h
+      · simp at h
+    · intro m ts r h
+      rw [parseExpr_succ] at h ⊢
+      split at h
+      · next l ts' heq => rw [ihP _ _ heq]; exact ihL _ _ _ _ h
+      · simp at h
+    · intro m l ts r h
+      rw [parseLoop_succ] at h ⊢
+      split at h
+      · split at h
+        · next hm =>
+          split at h
+          · next rr ts'' heq => rw [if_pos hm, ihE _ _ _ heq]; exact ihL _ _ _ _ h
+          · simp at h
+        · next hm => rw [if_neg hm]; exact h
+      · split at h
+        · next hm => rw [if_pos hm]; exact ihL _ _ _ _ h
+        · next hm => rw [if_neg hm]; exact h
+      · exact h
+
+theorem mono_le {f f' : Nat} (hle : f ≤ f') :
+    (∀ ts r, parsePrimary L f ts = some r → parsePrimary L f' ts = some r) ∧
+    (∀ m ts r, parseExpr L f m ts = some r → parseExpr L f' m ts = some r) ∧
+    (∀ m l ts r, parseLoop L f m l ts = some r → parseLoop L f' m l ts = some r) := by
+  induction hle with
+  | refl => exact ⟨fun _ _ h => h, fun _ _ _ h => h, fun _ _ _ _ h => h⟩
+  | step _ ih =>
+    obtain ⟨a, b, c⟩ := ih
+    obtain ⟨a', b', c'⟩ := mono_all L _
+    exact ⟨fun ts r h => a' _ _ (a ts r h), fun m ts r h => b' _ _ _ (b m ts r h), fun m l ts r h => c' _ _ _ _ (c m l ts r h)⟩
+
+
+/-! ### "eventually returns" and its introduction rules -/
+def EvP (ts : List Tok) (r : Expr × List Tok) : Prop := ∃ f, parsePrimary L f ts = some r
+def EvE (m : Nat) (ts : List Tok) (r : Expr × List Tok) : Prop := ∃ f, parseExpr L f m ts = some r
+def EvL (m : Nat) (l : Expr) (ts : List Tok) (r : Expr × List Tok) : Prop := ∃ f, parseLoop L f m l ts = some r
+
+theorem EvP_num (n : Nat) (ts : List Tok) : EvP L (.num n :: ts) (.lit n, ts) := ⟨1, by rw [parsePrimary_succ]⟩
+theorem EvP_ident (x : String) (ts : List Tok) : EvP L (.ident x :: ts) (.var x, ts) := ⟨1, by rw [parsePrimary_succ]⟩
+
+theorem EvP_paren {ts ts' : List Tok} {e : Expr} (h : EvE L 0 ts (e, .rparen :: ts')) : EvP L (.lparen :: ts) (e, ts') := by
+  obtain ⟨f, hf⟩ := h
+  exact ⟨f + 1, by rw [parsePrimary_succ]; simp only [hf]⟩
+
+theorem EvP_neg {ts ts' : List Tok} {e : Expr} (h : EvE L (L.neg + 1) ts (e, ts')) : EvP L (.op .sub :: ts) (.neg e, ts') := by
+  obtain ⟨f, hf⟩ := h
+  exact ⟨f + 1, by rw [parsePrimary_succ]; simp only [hf]⟩
+
+theorem EvP_pos {ts ts' : List Tok} {e : Expr} (h : EvE L (L.pos + 1) ts (e, ts')) : EvP L (.op .add :: ts) (.pos e, ts') := by
+  obtain ⟨f, hf⟩ := h
+  exact ⟨f + 1, by rw [parsePrimary_succ]; simp only [hf]⟩
+
+theorem EvE_intro {m : Nat} {ts ts' : List Tok} {x : Expr} {r : Expr × List Tok}
+    (h1 : EvP L ts (x, ts')) (h2 : EvL L m x ts' r) : EvE L m ts r := by
+  obtain ⟨f1, hf1⟩ := h1
+  obtain ⟨f2, hf2⟩ := h2
+  refine ⟨max f1 f2 + 1, ?_⟩
+  rw [parseExpr_succ, (mono_le L (Nat.le_max_left f1 f2)).1 _ _ hf1]
+  exact (mono_le L (Nat.le_max_right f1 f2)).2.2 _ _ _ _ hf2
+
+theorem EvL_op {m : Nat} {o : BinOp} {l rhs : Expr} {ts ts' : List Tok} {r : Expr × List Tok}
+    (hm : m ≤ L.bin o) (h1 : EvE L (L.bin o + 1) ts (rhs, ts')) (h2 : EvL L m (.bin o l rhs) ts' r) :
+    EvL L m l (.op o :: ts) r := by
+  obtain ⟨f1, hf1⟩ := h1
+  obtain ⟨f2, hf2⟩ := h2
+  refine ⟨max f1 f2 + 1, ?_⟩
+  rw [parseLoop_succ]
+  simp only [if_pos hm, (mono_le L (Nat.le_max_left f1 f2)).2.1 _ _ _ hf1]
+  exact (mono_le L (Nat.le_max_right f1 f2)).2.2 _ _ _ _ hf2
+
+theorem EvL_post {s : IntSz} {l : Expr} {ts : List Tok} {r : Expr × List Tok}
+    (h : EvL L 0 (.size s l) ts r) : EvL L 0 l (.dot :: .isize s :: ts) r := by
+  obtain ⟨f, hf⟩ := h
+  exact ⟨f + 1, by rw [parseLoop_succ]; simpa using hf⟩
+
+/-- the loop at level `m` stops in front of `ts` -/
+def StopAt (m : Nat) (ts : List Tok) : Prop :=
+  (∀ o ts', ts = .op o :: ts' → ¬ m ≤ L.bin o) ∧ (∀ s ts', ts = .dot :: .isize s :: ts' → m ≠ 0)
+
+theorem EvL_stop {m : Nat} {l : Expr} {ts : List Tok} (h : StopAt L m ts) : EvL L m l ts (l, ts) := by
+  refine ⟨1, ?_⟩
+  rw [parseLoop_succ]
+  split
+  · next o ts' => simp [h.1 o ts' rfl]
+  · next s ts' => simp [h.2 s ts' rfl]
+  · rfl
+
+/-- no operator of a level above `m` follows -/
+def NoHigher (m : Nat) (rest : List Tok) : Prop := ∀ o ts, rest = .op o :: ts → L.bin o ≤ m
+
+theorem NoHigher_mono {m m' : Nat} {rest : List Tok} (h : NoHigher L m rest) (hle : m ≤ m') : NoHigher L m' rest :=
+  fun o ts e => Nat.le_trans (h o ts e) hle
+
+theorem StopAt_of_NoHigher {m u : Nat} {rest : List Tok} (h : NoHigher L m rest) (hu : m < u) : StopAt L u rest :=
+  ⟨fun o ts' e hle => by have := h o ts' e; omega, fun _ _ _ => by omega⟩
+
+theorem paren_append (body rest : List Tok) : paren body ++ rest = .lparen :: (body ++ .rparen :: rest) := by
+  simp [paren]
+
+theorem StopAt_rparen (m : Nat) (rest : List Tok) : StopAt L m (.rparen :: rest) :=
+  ⟨fun _ _ e => (by cases e), fun _ _ e => (by cases e)⟩
+theorem NoHigher_rparen (m : Nat) (rest : List Tok) : NoHigher L m (.rparen :: rest) := fun _ _ e => by cases e
+theorem NoHigher_dot (m : Nat) (rest : List Tok) : NoHigher L m (.dot :: rest) := fun _ _ e => by cases e
+
+/-- a parenthesised sub-expression whose bare form parses at level 0 -/
+theorem paren_case {body rest : List Tok} {e : Expr} {k : Nat} {r : Expr × List Tok}
+    (hbare : EvE L 0 (body ++ .rparen :: rest) (e, .rparen :: rest)) (hloop : EvL L k e rest r) :
+    EvE L k (paren body ++ rest) r := by
+  rw [paren_append]
+  exact EvE_intro L (EvP_paren L hbare) hloop
+
+theorem parse_pr (e : Expr) : ∀ m k rest r, k ≤ m → NoHigher L m rest → EvL L k e rest r → EvE L k (pr L m e ++ rest) r := by
+  induction e with
+  | lit n =>
+    intro m k rest r _ _ h
+    exact EvE_intro L (EvP_num L n rest) h
+  | var x =>
+    intro m k rest r _ _ h
+    exact EvE_intro L (EvP_ident L x rest) h
+  | bin o l r ihl ihr =>
+    have bare : ∀ m k rest r', k ≤ m → m ≤ L.bin o → NoHigher L m rest → EvL L k (.bin o l r) rest r' →
+        EvE L k ((pr L (L.bin o) l ++ .op o :: pr L (L.bin o + 1) r) ++ rest) r' := by
+      intro m k rest r' hk hm hn h
+      rw [List.append_assoc, List.cons_append]
+      apply ihl (L.bin o) k _ r' (Nat.le_trans hk hm) (fun o' ts e => by cases e; exact Nat.le_refl _)
+      apply EvL_op L (Nat.le_trans hk hm) _ h
+      apply ihr (L.bin o + 1) (L.bin o + 1) rest _ (Nat.le_refl _) (NoHigher_mono L hn (by omega))
+      exact EvL_stop L (StopAt_of_NoHigher L hn (by omega))
+    intro m k rest r' hk hn h
+    simp only [pr]
+    split
+    · next hm => exact bare m k rest r' hk hm hn h
+    · exact paren_case L (bare 0 0 _ _ (Nat.le_refl _) (Nat.zero_le _) (NoHigher_rparen L 0 rest)
+        (EvL_stop L (StopAt_rparen L 0 rest))) h
+  | neg x ih =>
+    have bare : ∀ m k rest r', m ≤ L.neg → NoHigher L m rest → EvL L k (.neg x) rest r' →
+        EvE L k ((.op .sub :: pr L (L.neg + 1) x) ++ rest) r' := by
+      intro m k rest r' hm hn h
+      rw [List.cons_append]
+      refine EvE_intro L (EvP_neg L ?_) h
+      apply ih (L.neg + 1) (L.neg + 1) rest _ (Nat.le_refl _) (NoHigher_mono L hn (by omega))
+      exact EvL_stop L (StopAt_of_NoHigher L hn (by omega))
+    intro m k rest r' hk hn h
+    simp only [pr]
+    split
+    · next hm => exact bare m k rest r' hm hn h
+    · exact paren_case L (bare 0 0 _ _ (Nat.zero_le _) (NoHigher_rparen L 0 rest) (EvL_stop L (StopAt_rparen L 0 rest))) h
+  | pos x ih =>
+    have bare : ∀ m k rest r', m ≤ L.pos → NoHigher L m rest → EvL L k (.pos x) rest r' →
+        EvE L k ((.op .add :: pr L (L.pos + 1) x) ++ rest) r' := by
+      intro m k rest r' hm hn h
+      rw [List.cons_append]
+      refine EvE_intro L (EvP_pos L ?_) h
+      apply ih (L.pos + 1) (L.pos + 1) rest _ (Nat.le_refl _) (NoHigher_mono L hn (by omega))
+      exact EvL_stop L (StopAt_of_NoHigher L hn (by omega))
+    intro m k rest r' hk hn h
+    simp only [pr]
+    split
+    · next hm => exact bare m k rest r' hm hn h
+    · exact paren_case L (bare 0 0 _ _ (Nat.zero_le _) (NoHigher_rparen L 0 rest) (EvL_stop L (StopAt_rparen L 0 rest))) h
+  | size s x ih =>
+    have bare : ∀ rest r', EvL L 0 (.size s x) rest r' → EvE L 0 ((pr L 0 x ++ [.dot, .isize s]) ++ rest) r' := by
+      intro rest r' h
+      rw [List.append_assoc]
+      exact ih 0 0 _ r' (Nat.le_refl _) (NoHigher_dot L 0 _) (EvL_post L h)
+    intro m k rest r' hk hn h
+    simp only [pr]
+    split
+    · next hm =>
+      subst hm
+      have hk0 : k = 0 := by omega
+      subst hk0
+      exact bare rest r' h
+    · exact paren_case L (bare _ _ (EvL_stop L (StopAt_rparen L 0 rest))) h
+
+theorem parse_pr_top (e : Expr) : EvE L 0 (pr L 0 e) (e, []) := by
+  have := parse_pr L e 0 0 [] (e, []) (Nat.le_refl _) (fun _ _ h => by cases h) (EvL_stop L ⟨fun _ _ h => (by cases h), fun _ _ h => (by cases h)⟩)
+  simpa using this
+
+
+/-! ### an explicit fuel bound: three units per consumed token -/
+theorem fuel_all : ∀ f,
+    (∀ ts e ts', parsePrimary L f ts = some (e, ts') → ts'.length < ts.length ∧
+        ∀ f', 3 * (ts.length - ts'.length) ≤ f' + 2 → parsePrimary L f' ts = some (e, ts')) ∧
+    (∀ m ts e ts', parseExpr L f m ts = some (e, ts') → ts'.length < ts.length ∧
+        ∀ f', 3 * (ts.length - ts'.length) ≤ f' → parseExpr L f' m ts = some (e, ts')) ∧
+    (∀ m l ts e ts', parseLoop L f m l ts = some (e, ts') → ts'.length ≤ ts.length ∧
+        ∀ f', 3 * (ts.length - ts'.length) + 1 ≤ f' → parseLoop L f' m l ts = some (e, ts')) := by
+  intro f
+  induction f with
+  | zero =>
+    refine ⟨?_, ?_, ?_⟩
+    · intro ts e ts' h; simp [parsePrimary] at h
+    · intro m ts e ts' h; simp [parseExpr] at h
+    · intro m l ts e ts' h; simp [parseLoop] at h
+  | succ f ih =>
+    obtain ⟨ihP, ihE, ihL⟩ := ih
+    refine ⟨?_, ?_, ?_⟩
+    · intro ts e ts' h
+      rw [parsePrimary_succ] at h
+      split at h
+      · next n t =>
+        simp only [Option.some.injEq, Prod.mk.injEq] at h
+        obtain ⟨rfl, rfl⟩ := h
+        refine ⟨by simp, ?_⟩
+        intro f' hf'
+        obtain ⟨f'', rfl⟩ : ∃ f'', f' = f'' + 1 := ⟨f' - 1, by simp at hf'; omega⟩
+        rw [parsePrimary_succ]
+      · next x t =>
+        simp only [Option.some.injEq, Prod.mk.injEq] at h
+        obtain ⟨rfl, rfl⟩ := h
+        refine ⟨by simp, ?_⟩
+        intro f' hf'
+        obtain ⟨f'', rfl⟩ : ∃ f'', f' = f'' + 1 := ⟨f' - 1, by simp at hf'; omega⟩
+        rw [parsePrimary_succ]
+      · next t =>
+        split at h
+        · next e1 t2 heq =>
+          simp only [Option.some.injEq, Prod.mk.injEq] at h
+          obtain ⟨rfl, rfl⟩ := h
+          obtain ⟨hlen, hfu⟩ := ihE _ _ _ _ heq
+          simp only [List.length_cons] at hlen ⊢
+          refine ⟨by omega, ?_⟩
+          intro f' hf'
+          obtain ⟨f'', rfl⟩ : ∃ f'', f' = f'' + 1 := ⟨f' - 1, by omega⟩
+          rw [parsePrimary_succ]
+          simp only [hfu f'' (by simp only [List.length_cons]; omega)]
+        · simp at h
+      · next t =>
+        split at h
+        · next e1 t2 heq =>
+          simp only [Option.some.injEq, Prod.mk.injEq] at h
+          obtain ⟨rfl, rfl⟩ := h
+          obtain ⟨hlen, hfu⟩ := ihE _ _ _ _ heq
+          simp only [List.length_cons] at hlen ⊢
+          refine ⟨by omega, ?_⟩
+          intro f' hf'
+          obtain ⟨f'', rfl⟩ : ∃ f'', f' = f'' + 1 := ⟨f' - 1, by omega⟩
+          rw [parsePrimary_succ]
+          simp only [hfu f'' (by omega)]
+        · simp at h
+      · next t =>
+        split at h
+        · next e1 t2 heq =>
+          simp only [Option.some.injEq, Prod.mk.injEq] at h
+          obtain ⟨rfl, rfl⟩ := h
+          obtain ⟨hlen, hfu⟩ := ihE _ _ _ _ heq
+          simp only [List.length_cons] at hlen ⊢
+          refine ⟨by omega, ?_⟩
+          intro f' hf'
+          obtain ⟨f'', rfl⟩ : ∃ f'', f' = f'' + 1 := ⟨f' - 1, by omega⟩
+          rw [parsePrimary_succ]
+          simp only [hfu f'' (by omega)]
+        · simp at h
+      · simp at h
+    · intro m ts e ts' h
+      rw [parseExpr_succ] at h
+      split at h
+      · next l t1 heq =>
+        obtain ⟨hlen1, hfu1⟩ := ihP _ _ _ heq
+        obtain ⟨hlen2, hfu2⟩ := ihL _ _ _ _ _ h
+        refine ⟨by omega, ?_⟩
+        intro f' hf'
+        obtain ⟨f'', rfl⟩ : ∃ f'', f' = f'' + 1 := ⟨f' - 1, by omega⟩
+        rw [parseExpr_succ, hfu1 f'' (by omega)]
+        exact hfu2 f'' (by omega)
+      · simp at h
+    · intro m l ts e ts' h
+      rw [parseLoop_succ] at h
+      split at h
+      · next o t =>
+        split at h
+        · next hm =>
+          split at h
+          · next rr t2 heq =>
+            obtain ⟨hlen1, hfu1⟩ := ihE _ _ _ _ heq
+            obtain ⟨hlen2, hfu2⟩ := ihL _ _ _ _ _ h
+            simp only [List.length_cons] at *
+            refine ⟨by omega, ?_⟩
+            intro f' hf'
+            obtain ⟨f'', rfl⟩ : ∃ f'', f' = f'' + 1 := ⟨f' - 1, by omega⟩
+            rw [parseLoop_succ]
+            simp only [if_pos hm, hfu1 f'' (by omega)]
+            exact hfu2 f'' (by omega)
+          · simp at h
+        · next hm =>
+          simp only [Option.some.injEq, Prod.mk.injEq] at h
+          obtain ⟨rfl, rfl⟩ := h
+          refine ⟨Nat.le_refl _, ?_⟩
+          intro f' hf'
+          obtain ⟨f'', rfl⟩ : ∃ f'', f' = f'' + 1 := ⟨f' - 1, by omega⟩
+          rw [parseLoop_succ]
+          simp only [if_neg hm]
+      · next s t =>
+        split at h
+        · next hm =>
+          obtain ⟨hlen2, hfu2⟩ := ihL _ _ _ _ _ h
+          simp only [List.length_cons] at *
+          refine ⟨by omega, ?_⟩
+          intro f' hf'
+          obtain ⟨f'', rfl⟩ : ∃ f'', f' = f'' + 1 := ⟨f' - 1, by omega⟩
+          rw [parseLoop_succ]
+          simp only [if_pos hm]
+          exact hfu2 f'' (by omega)
+        · next hm =>
+          simp only [Option.some.injEq, Prod.mk.injEq] at h
+          obtain ⟨rfl, rfl⟩ := h
+          refine ⟨Nat.le_refl _, ?_⟩
+          intro f' hf'
+          obtain ⟨f'', rfl⟩ : ∃ f'', f' = f'' + 1 := ⟨f' - 1, by omega⟩
+          rw [parseLoop_succ]
+          simp only [if_neg hm]
+      · next hno1 hno2 =>
+        simp only [Option.some.injEq, Prod.mk.injEq] at h
+        obtain ⟨rfl, rfl⟩ := h
+        refine ⟨Nat.le_refl _, ?_⟩
+        intro f' hf'
+        obtain ⟨f'', rfl⟩ : ∃ f'', f' = f'' + 1 := ⟨f' - 1, by omega⟩
+        rw [parseLoop_succ]
+        split
+        · next o t => exact absurd rfl (hno1 o t)
+        · next s t => exact absurd rfl (hno2 s t)
+        · rfl
+
+theorem refParse_of_Ev {ts : List Tok} {e : Expr} (h : EvE L 0 ts (e, [])) : refParse L ts = .ok e := by
+  obtain ⟨f, hf⟩ := h
+  obtain ⟨_, hfu⟩ := (fuel_all L f).2.1 _ _ _ _ hf
+  unfold refParse
+  rw [hfu (fuelFor ts) (by simp [fuelFor])]
+
+theorem parse_print_expr (e : Expr) : refParse L (pr L 0 e) = .ok e := refParse_of_Ev L (parse_pr_top L e)
+
+
+/-! ### bool level -/
+theorem parsePrimaryB_succ (f : Nat) (ts : List Tok) :
+    parsePrimaryB L (f + 1) ts =
+    (match ts with
+    | .lnot :: ts' =>
+      (match parsePrimaryB L f ts' with
+       | some (b, ts'') => some (.lnot b, ts'')
+       | none => none)
+    | .defined :: ts' =>
+      (match ts' with
+       | .lparen :: .ident x :: .rparen :: ts'' => some (.defined x, ts'')
+       | _ => none)
+    | .lparen :: ts' =>
+      (match parseB L f 0 ts' with
+       | some (b, .rparen :: ts'') =>
+         (match b with
+          | .atom e =>
+            (match parseLoop L f 0 e ts'' with
+             | some (e', ts3) => some (.atom e', ts3)
+             | none => none)
+          | _ => some (b, ts''))
+       | _ => none)
+    | _ =>
+      (match parseExpr L f 0 ts with
+       | some (e, ts') => some (.atom e, ts')
+       | none => none)) := by
+  rfl
+
+theorem parseB_succ (f m : Nat) (ts : List Tok) :
+    parseB L (f + 1) m ts =
+    (match parsePrimaryB L f ts with
+    | some (l, ts') => parseLoopB L f m l ts'
+    | none => none) := by
+  rfl
+
+theorem parseLoopB_succ (f m : Nat) (l : BExpr) (ts : List Tok) :
+    parseLoopB L (f + 1) m l ts =
+    (match ts with
+    | .cmp o :: ts' =>
+      if m ≤ L.cmp o then
+        (match parseB L f (L.cmp o + 1) ts' with
+         | some (r, ts'') => parseLoopB L f m (.bin o l r) ts''
+         | none => none)
+      else some (l, ts)
+    | _ => some (l, ts)) := by
+  rfl
+
+
+theorem monoB_all : ∀ f,
+    (∀ ts r, parsePrimaryB L f ts = some r → parsePrimaryB L (f+1) ts = some r) ∧
+    (∀ m ts r, parseB L f m ts = some r → parseB L (f+1) m ts = some r) ∧
+    (∀ m l ts r, parseLoopB L f m l ts = some r → parseLoopB L (f+1) m l ts = some r) := by
+  intro f
+  induction f with
+  | zero =>
+    refine ⟨?_, ?_, ?_⟩
+    · intro ts r h; simp [parsePrimaryB] at h
+    · intro m ts r h; simp [parseB] at h
+    · intro m l ts r h; simp [parseLoopB] at h
+  | succ f ih =>
+    obtain ⟨ihP, ihE, ihL⟩ := ih
+    obtain ⟨_, eE, eL⟩ := mono_all L f
+    refine ⟨?_, ?_, ?_⟩
+    · intro ts r h
+      rw [parsePrimaryB_succ] at h ⊢
+      split at h
+      · split at h
+        · next b t2 heq => rw [ihP _ _ heq]; exact h
+        · simp at h
+      · exact h
+      · split at h
+        · next b t2 heq =>
+          rw [ihE _ _ _ heq]
+          split at h
+          · next e =>
+            split at h
+            · next e' t3 heq2 => simp only [eL _ _ _ _ heq2]; exact h
+            · simp at h
+          · next hb =>
+            cases b with
+            | atom e => exact absurd rfl (hb e)
+            | _ => exact h
+        · simp at h
+      · split at h
+        · next e t1 heq => rw [eE _ _ _ heq]; exact h
+        · simp at h
+    · intro m ts r h
+      rw [parseB_succ] at h ⊢
+      split at h
+      · next l ts' heq => rw [ihP _ _ heq]; exact ihL _ _ _ _ h
+      · simp at h
+    · intro m l ts r h
+      rw [parseLoopB_succ] at h ⊢
+      split at h
+      · split at h
+        · next hm =>
+          split at h
+          · next rr ts'' heq => rw [if_pos hm, ihE _ _ _ heq]; exact ihL _ _ _ _ h
+          · simp at h
+        · next hm => rw [if_neg hm]; exact h
+      · exact h
+
+
+theorem monoB_le {f f' : Nat} (hle : f ≤ f') :
+    (∀ ts r, parsePrimaryB L f ts = some r → parsePrimaryB L f' ts = some r) ∧
+    (∀ m ts r, parseB L f m ts = some r → parseB L f' m ts = some r) ∧
+    (∀ m l ts r, parseLoopB L f m l ts = some r → parseLoopB L f' m l ts = some r) := by
+  induction hle with
+  | refl => exact ⟨fun _ _ h => h, fun _ _ _ h => h, fun _ _ _ _ h => h⟩
+  | step _ ih =>
+    obtain ⟨a, b, c⟩ := ih
+    obtain ⟨a', b', c'⟩ := monoB_all L _
+    exact ⟨fun ts r h => a' _ _ (a ts r h), fun m ts r h => b' _ _ _ (b m ts r h), fun m l ts r h => c' _ _ _ _ (c m l ts r h)⟩
+
+def EvPB (ts : List Tok) (r : BExpr × List Tok) : Prop := ∃ f, parsePrimaryB L f ts = some r
+def EvB (m : Nat) (ts : List Tok) (r : BExpr × List Tok) : Prop := ∃ f, parseB L f m ts = some r
+def EvLB (m : Nat) (l : BExpr) (ts : List Tok) (r : BExpr × List Tok) : Prop := ∃ f, parseLoopB L f m l ts = some r
+
+theorem EvPB_lnot {ts ts' : List Tok} {b : BExpr} (h : EvPB L ts (b, ts')) : EvPB L (.lnot :: ts) (.lnot b, ts') := by
+  obtain ⟨f, hf⟩ := h
+  exact ⟨f + 1, by rw [parsePrimaryB_succ]; simp only [hf]⟩
+
+theorem EvPB_defined (x : String) (ts : List Tok) :
+    EvPB L (.defined :: .lparen :: .ident x :: .rparen :: ts) (.defined x, ts) := ⟨1, by rw [parsePrimaryB_succ]⟩
+
+theorem EvPB_paren_nonatom {ts ts' : List Tok} {b : BExpr} (h : EvB L 0 ts (b, .rparen :: ts'))
+    (hb : ∀ e, b ≠ .atom e) : EvPB L (.lparen :: ts) (b, ts') := by
+  obtain ⟨f, hf⟩ := h
+  refine ⟨f + 1, ?_⟩
+  rw [parsePrimaryB_succ]
+  cases b with
+  | atom e => exact absurd rfl (hb e)
+  | _ => simp only [hf]
+
+theorem EvPB_paren_atom {ts ts' ts3 : List Tok} {e e' : Expr} (h : EvB L 0 ts (.atom e, .rparen :: ts'))
+    (h2 : EvL L 0 e ts' (e', ts3)) : EvPB L (.lparen :: ts) (.atom e', ts3) := by
+  obtain ⟨f1, hf1⟩ := h
+  obtain ⟨f2, hf2⟩ := h2
+  refine ⟨max f1 f2 + 1, ?_⟩
+  rw [parsePrimaryB_succ]
+  simp only [(monoB_le L (Nat.le_max_left f1 f2)).2.1 _ _ _ hf1, (mono_le L (Nat.le_max_right f1 f2)).2.2 _ _ _ _ hf2]
+
+theorem EvPB_expr {ts ts' : List Tok} {e : Expr} (h : EvE L 0 ts (e, ts'))
+    (h1 : ∀ t, ts ≠ .lnot :: t) (h2 : ∀ t, ts ≠ .defined :: t) (h3 : ∀ t, ts ≠ .lparen :: t) :
+    EvPB L ts (.atom e, ts') := by
+  obtain ⟨f, hf⟩ := h
+  refine ⟨f + 1, ?_⟩
+  rw [parsePrimaryB_succ]
+  split
+  · next t => exact absurd rfl (h1 t)
+  · next t => exact absurd rfl (h2 t)
+  · next t => exact absurd rfl (h3 t)
+  · simp only [hf]
+
+theorem EvB_intro {m : Nat} {ts ts' : List Tok} {x : BExpr} {r : BExpr × List Tok}
+    (h1 : EvPB L ts (x, ts')) (h2 : EvLB L m x ts' r) : EvB L m ts r := by
+  obtain ⟨f1, hf1⟩ := h1
+  obtain ⟨f2, hf2⟩ := h2
+  refine ⟨max f1 f2 + 1, ?_⟩
+  rw [parseB_succ, (monoB_le L (Nat.le_max_left f1 f2)).1 _ _ hf1]
+  exact (monoB_le L (Nat.le_max_right f1 f2)).2.2 _ _ _ _ hf2
+
+theorem EvLB_op {m : Nat} {o : CmpOp} {l rhs : BExpr} {ts ts' : List Tok} {r : BExpr × List Tok}
+    (hm : m ≤ L.cmp o) (h1 : EvB L (L.cmp o + 1) ts (rhs, ts')) (h2 : EvLB L m (.bin o l rhs) ts' r) :
+    EvLB L m l (.cmp o :: ts) r := by
+  obtain ⟨f1, hf1⟩ := h1
+  obtain ⟨f2, hf2⟩ := h2
+  refine ⟨max f1 f2 + 1, ?_⟩
+  rw [parseLoopB_succ]
+  simp only [if_pos hm, (monoB_le L (Nat.le_max_left f1 f2)).2.1 _ _ _ hf1]
+  exact (monoB_le L (Nat.le_max_right f1 f2)).2.2 _ _ _ _ hf2
+
+def StopAtB (m : Nat) (ts : List Tok) : Prop := ∀ o ts', ts = .cmp o :: ts' → ¬ m ≤ L.cmp o
+
+theorem EvLB_stop {m : Nat} {l : BExpr} {ts : List Tok} (h : StopAtB L m ts) : EvLB L m l ts (l, ts) := by
+  refine ⟨1, ?_⟩
+  rw [parseLoopB_succ]
+  split
+  · next o ts' => simp [h o ts' rfl]
+  · rfl
+
+/-- a plain `expr` is a primary of the bool level -/
+theorem atom_of_expr : ∀ f ts e ts', parseExpr L f 0 ts = some (e, ts') → EvPB L ts (.atom e, ts') := by
+  intro f
+  induction f using Nat.strongRecOn with
+  | _ f ih =>
+    intro ts e ts' h
+    cases f with
+    | zero => simp [parseExpr] at h
+    | succ f1 =>
+      have h0 := h
+      rw [parseExpr_succ] at h
+      split at h
+      · next x t1 hP =>
+        cases ts with
+        | nil => exact EvPB_expr L ⟨_, h0⟩ (fun _ e => by cases e) (fun _ e => by cases e) (fun _ e => by cases e)
+        | cons tk ts1 =>
+          cases tk with
+          | lparen =>
+            cases f1 with
+            | zero => simp [parsePrimary] at hP
+            | succ f2 =>
+              rw [parsePrimary_succ] at hP
+              simp only at hP
+              split at hP
+              · next e1 t2 heq =>
+                simp only [Option.some.injEq, Prod.mk.injEq] at hP
+                obtain ⟨rfl, rfl⟩ := hP
+                have hin := ih f2 (by omega) _ _ _ heq
+                have hB := EvB_intro L hin (EvLB_stop L (m := 0) (l := .atom e1) (ts := .rparen :: t2) (fun _ _ e => by cases e))
+                exact EvPB_paren_atom L hB ⟨_, h⟩
+              · simp at hP
+          | lnot =>
+            cases f1 with
+            | zero => simp [parsePrimary] at hP
+            | succ f2 => rw [parsePrimary_succ] at hP; simp at hP
+          | defined =>
+            cases f1 with
+            | zero => simp [parsePrimary] at hP
+            | succ f2 => rw [parsePrimary_succ] at hP; simp at hP
+          | _ => exact EvPB_expr L ⟨_, h0⟩ (fun _ e => by cases e) (fun _ e => by cases e) (fun _ e => by cases e)
+      · simp at h
+
+
+def NoHigherB (m : Nat) (rest : List Tok) : Prop := ∀ o ts, rest = .cmp o :: ts → L.cmp o ≤ m
+
+/-- text of a bool-level primary -/
+def primText : BExpr → List Tok
+  | .bin o l r => paren (prB L 0 (.bin o l r))
+  | b => prB L 0 b
+
+theorem prB_lnot (m : Nat) (c : BExpr) : prB L m (.lnot c) = .lnot :: primText L c := by
+  cases c <;> simp [prB, primText]
+
+theorem StopAt0_cmp (o : CmpOp) (t : List Tok) : StopAt L 0 (.cmp o :: t) :=
+  ⟨fun _ _ e => (by cases e), fun _ _ e => (by cases e)⟩
+
+theorem atom_prim (e : Expr) (rest : List Tok) (hs : StopAt L 0 rest) : EvPB L (pr L 0 e ++ rest) (.atom e, rest) := by
+  have hn : NoHigher L 0 rest := fun o ts h => absurd (Nat.zero_le _) (hs.1 o ts h)
+  obtain ⟨f, hf⟩ := parse_pr L e 0 0 rest (e, rest) (Nat.le_refl _) hn (EvL_stop L hs)
+  exact atom_of_expr L f _ _ _ hf
+
+theorem parse_prB (b : BExpr) :
+    (∀ m k rest r, k ≤ m → NoHigherB L m rest → StopAt L 0 rest → EvLB L k b rest r → EvB L k (prB L m b ++ rest) r) ∧
+    (∀ rest, StopAt L 0 rest → EvPB L (primText L b ++ rest) (b, rest)) := by
+  induction b with
+  | atom e =>
+    refine ⟨?_, ?_⟩
+    · intro m k rest r _ _ hs h
+      exact EvB_intro L (atom_prim L e rest hs) h
+    · intro rest hs
+      exact atom_prim L e rest hs
+  | bin o l r ihl ihr =>
+    have bare : ∀ m k rest r', k ≤ m → m ≤ L.cmp o → NoHigherB L m rest → StopAt L 0 rest → EvLB L k (.bin o l r) rest r' →
+        EvB L k ((prB L (L.cmp o) l ++ .cmp o :: prB L (L.cmp o + 1) r) ++ rest) r' := by
+      intro m k rest r' hk hm hn hs h
+      rw [List.append_assoc, List.cons_append]
+      apply ihl.1 (L.cmp o) k _ r' (Nat.le_trans hk hm) (fun o' ts e => by cases e; exact Nat.le_refl _) (StopAt0_cmp L _ _)
+      apply EvLB_op L (Nat.le_trans hk hm) _ h
+      apply ihr.1 (L.cmp o + 1) (L.cmp o + 1) rest _ (Nat.le_refl _) (fun o' ts e => Nat.le_trans (hn o' ts e) (by omega)) hs
+      exact EvLB_stop L (fun o' ts e hle => by have := hn o' ts e; omega)
+    have prim : ∀ rest, EvPB L (paren (prB L (L.cmp o) l ++ .cmp o :: prB L (L.cmp o + 1) r) ++ rest) (.bin o l r, rest) := by
+      intro rest
+      rw [paren_append]
+      refine EvPB_paren_nonatom L ?_ (fun e h => by cases h)
+      exact bare 0 0 _ _ (Nat.le_refl _) (Nat.zero_le _) (fun _ _ e => by cases e) (StopAt_rparen L 0 rest)
+        (EvLB_stop L (fun _ _ e => by cases e))
+    refine ⟨?_, ?_⟩
+    · intro m k rest r' hk hn hs h
+      simp only [prB]
+      split
+      · next hm => exact bare m k rest r' hk hm hn hs h
+      · exact EvB_intro L (prim rest) h
+    · intro rest _
+      have : primText L (.bin o l r) = paren (prB L (L.cmp o) l ++ .cmp o :: prB L (L.cmp o + 1) r) := by
+        simp [primText, prB]
+      rw [this]
+      exact prim rest
+  | lnot c ih =>
+    have prim : ∀ rest, StopAt L 0 rest → EvPB L (.lnot :: primText L c ++ rest) (.lnot c, rest) := by
+      intro rest hs
+      rw [List.cons_append]
+      exact EvPB_lnot L (ih.2 rest hs)
+    refine ⟨?_, ?_⟩
+    · intro m k rest r _ _ hs h
+      rw [prB_lnot]
+      exact EvB_intro L (prim rest hs) h
+    · intro rest hs
+      have : primText L (.lnot c) = .lnot :: primText L c := by
+        simp only [primText]; exact prB_lnot L 0 c
+      rw [this]
+      exact prim rest hs
+  | defined x =>
+    refine ⟨?_, ?_⟩
+    · intro m k rest r _ _ _ h
+      exact EvB_intro L (EvPB_defined L x rest) h
+    · intro rest _
+      exact EvPB_defined L x rest
+
+theorem parse_prB_top (b : BExpr) : EvB L 0 (prB L 0 b) (b, []) := by
+  have := (parse_prB L b).1 0 0 [] (b, []) (Nat.le_refl _) (fun _ _ h => by cases h)
+    ⟨fun _ _ h => (by cases h), fun _ _ h => (by cases h)⟩ (EvLB_stop L (fun _ _ h => by cases h))
+  simpa using this
+
+
+theorem fuelB_all : ∀ f,
+    (∀ ts b ts', parsePrimaryB L f ts = some (b, ts') → ts'.length < ts.length ∧
+        ∀ f', 3 * (ts.length - ts'.length) + 1 ≤ f' → parsePrimaryB L f' ts = some (b, ts')) ∧
+    (∀ m ts b ts', parseB L f m ts = some (b, ts') → ts'.length < ts.length ∧
+        ∀ f', 3 * (ts.length - ts'.length) + 2 ≤ f' → parseB L f' m ts = some (b, ts')) ∧
+    (∀ m l ts b ts', parseLoopB L f m l ts = some (b, ts') → ts'.length ≤ ts.length ∧
+        ∀ f', 3 * (ts.length - ts'.length) + 1 ≤ f' → parseLoopB L f' m l ts = some (b, ts')) := by
+  intro f
+  induction f with
+  | zero =>
+    refine ⟨?_, ?_, ?_⟩
+    · intro ts e ts' h; simp [parsePrimaryB] at h
+    · intro m ts e ts' h; simp [parseB] at h
+    · intro m l ts e ts' h; simp [parseLoopB] at h
+  | succ f ih =>
+    obtain ⟨ihP, ihE, ihL⟩ := ih
+    obtain ⟨_, eE, eL⟩ := fuel_all L f
+    refine ⟨?_, ?_, ?_⟩
+    · intro ts b ts' h
+      rw [parsePrimaryB_succ] at h
+      split at h
+      · next t =>
+        split at h
+        · next b1 t2 heq =>
+          simp only [Option.some.injEq, Prod.mk.injEq] at h
+          obtain ⟨rfl, rfl⟩ := h
+          obtain ⟨hlen, hfu⟩ := ihP _ _ _ heq
+          simp only [List.length_cons] at hlen ⊢
+          refine ⟨by omega, ?_⟩
+          intro f' hf'
+          obtain ⟨f'', rfl⟩ : ∃ f'', f' = f'' + 1 := ⟨f' - 1, by omega⟩
+          rw [parsePrimaryB_succ]
+          simp only [hfu f'' (by omega)]
+        · simp at h
+      · next t =>
+        split at h
+        · next x t2 =>
+          simp only [Option.some.injEq, Prod.mk.injEq] at h
+          obtain ⟨rfl, rfl⟩ := h
+          simp only [List.length_cons]
+          refine ⟨by omega, ?_⟩
+          intro f' hf'
+          obtain ⟨f'', rfl⟩ : ∃ f'', f' = f'' + 1 := ⟨f' - 1, by omega⟩
+          rw [parsePrimaryB_succ]
+        · simp at h
+      · next t =>
+        split at h
+        · next b1 t2 heq =>
+          obtain ⟨hlen, hfu⟩ := ihE _ _ _ _ heq
+          simp only [List.length_cons] at hlen
+          split at h
+          · next e =>
+            split at h
+            · next e' t3 heq2 =>
+              simp only [Option.some.injEq, Prod.mk.injEq] at h
+              obtain ⟨rfl, rfl⟩ := h
+              obtain ⟨hlen2, hfu2⟩ := eL _ _ _ _ _ heq2
+              simp only [List.length_cons]
+              refine ⟨by omega, ?_⟩
+              intro f' hf'
+              obtain ⟨f'', rfl⟩ : ∃ f'', f' = f'' + 1 := ⟨f' - 1, by omega⟩
+              rw [parsePrimaryB_succ]
+              simp only [hfu f'' (by simp only [List.length_cons]; omega), hfu2 f'' (by omega)]
+            · simp at h
+          · next hb =>
+            simp only [Option.some.injEq, Prod.mk.injEq] at h
+            obtain ⟨rfl, rfl⟩ := h
+            simp only [List.length_cons]
+            refine ⟨by omega, ?_⟩
+            intro f' hf'
+            obtain ⟨f'', rfl⟩ : ∃ f'', f' = f'' + 1 := ⟨f' - 1, by omega⟩
+            rw [parsePrimaryB_succ]
+            have hq := hfu f'' (by simp only [List.length_cons]; omega)
+            cases b1 with
+            | atom e => exact absurd rfl (hb e)
+            | _ => simp only [hq]
+        · simp at h
+      · next h1 h2 h3 =>
+        split at h
+        · next e t1 heq =>
+          simp only [Option.some.injEq, Prod.mk.injEq] at h
+          obtain ⟨rfl, rfl⟩ := h
+          obtain ⟨hlen, hfu⟩ := eE _ _ _ _ heq
+          refine ⟨hlen, ?_⟩
+          intro f' hf'
+          obtain ⟨f'', rfl⟩ : ∃ f'', f' = f'' + 1 := ⟨f' - 1, by omega⟩
+          rw [parsePrimaryB_succ]
+          split
+          · next t => exact absurd rfl (h1 t)
+          · next t => exact absurd rfl (h2 t)
+          · next t => exact absurd rfl (h3 t)
+          · simp only [hfu f'' (by omega)]
+        · simp at h
+    · intro m ts b ts' h
+      rw [parseB_succ] at h
+      split at h
+      · next l t1 heq =>
+        obtain ⟨hlen1, hfu1⟩ := ihP _ _ _ heq
+        obtain ⟨hlen2, hfu2⟩ := ihL _ _ _ _ _ h
+        refine ⟨by omega, ?_⟩
+        intro f' hf'
+        obtain ⟨f'', rfl⟩ : ∃ f'', f' = f'' + 1 := ⟨f' - 1, by omega⟩
+        rw [parseB_succ, hfu1 f'' (by omega)]
+        exact hfu2 f'' (by omega)
+      · simp at h
+    · intro m l ts b ts' h
+      rw [parseLoopB_succ] at h
+      split at h
+      · next o t =>
+        split at h
+        · next hm =>
+          split at h
+          · next rr t2 heq =>
+            obtain ⟨hlen1, hfu1⟩ := ihE _ _ _ _ heq
+            obtain ⟨hlen2, hfu2⟩ := ihL _ _ _ _ _ h
+            simp only [List.length_cons] at *
+            refine ⟨by omega, ?_⟩
+            intro f' hf'
+            obtain ⟨f'', rfl⟩ : ∃ f'', f' = f'' + 1 := ⟨f' - 1, by omega⟩
+            rw [parseLoopB_succ]
+            simp only [if_pos hm, hfu1 f'' (by omega)]
+            exact hfu2 f'' (by omega)
+          · simp at h
+        · next hm =>
+          simp only [Option.some.injEq, Prod.mk.injEq] at h
+          obtain ⟨rfl, rfl⟩ := h
+          refine ⟨Nat.le_refl _, ?_⟩
+          intro f' hf'
+          obtain ⟨f'', rfl⟩ : ∃ f'', f' = f'' + 1 := ⟨f' - 1, by omega⟩
+          rw [parseLoopB_succ]
+          simp only [if_neg hm]
+      · next hno =>
+        simp only [Option.some.injEq, Prod.mk.injEq] at h
+        obtain ⟨rfl, rfl⟩ := h
+        refine ⟨Nat.le_refl _, ?_⟩
+        intro f' hf'
+        obtain ⟨f'', rfl⟩ : ∃ f'', f' = f'' + 1 := ⟨f' - 1, by omega⟩
+        rw [parseLoopB_succ]
+        split
+        · next o t => exact absurd rfl (hno o t)
+        · rfl
+
+theorem refParseB_of_Ev {ts : List Tok} {b : BExpr} (h : EvB L 0 ts (b, [])) : refParseB L ts = .ok b := by
+  obtain ⟨f, hf⟩ := h
+  obtain ⟨_, hfu⟩ := (fuelB_all L f).2.1 _ _ _ _ hf
+  unfold refParseB
+  rw [hfu (fuelFor ts) (by simp [fuelFor])]
+
+theorem parse_print_bexpr (b : BExpr) : refParseB L (prB L 0 b) = .ok b := refParseB_of_Ev L (parse_prB_top L b)
+
+
+/-! ### Python int operators -/
 
 theorem shr_eq_fdiv (a : Int) (n : Nat) : a >>> n = Int.fdiv a (2 ^ n) := by
   rw [Int.shiftRight_eq_div_pow]
   rw [Int.fdiv_eq_ediv_of_nonneg]
   · norm_cast
   · exact Int.le_of_lt (Int.pow_pos (by decide))
+
+theorem natAndNot_eq_ldiff (m n : Nat) : natAndNot m n = Nat.ldiff m n := by
+  apply Nat.eq_of_testBit_eq
+  intro i
+  simp [natAndNot, Nat.testBit_xor, Nat.testBit_and, Nat.testBit_ldiff]
+  cases Nat.testBit m i <;> cases Nat.testBit n i <;> rfl
+theorem intAnd_eq_land (a b : Int) : intAnd a b = Int.land a b := by
+  cases a <;> cases b <;> simp [intAnd, Int.land, natAndNot_eq_ldiff]
+theorem intOr_eq_lor (a b : Int) : intOr a b = Int.lor a b := by
+  cases a <;> cases b <;> simp [intOr, Int.lor, natAndNot_eq_ldiff]
+theorem intXor_eq_xor (a b : Int) : intXor a b = Int.xor a b := by
+  cases a <;> cases b <;> simp [intXor, Int.xor]
+
+
+theorem xor_mask (k r : Nat) (h : r < 2 ^ k) : (2 ^ k - 1) ^^^ r = 2 ^ k - 1 - r := by
+  have e : 2 ^ k - 1 - r = 2 ^ k - (r + 1) := by omega
+  rw [e]
+  apply Nat.eq_of_testBit_eq
+  intro i
+  rw [Nat.testBit_xor, Nat.testBit_two_pow_sub_one, Nat.testBit_two_pow_sub_succ h]
+  by_cases hi : i < k
+  · simp [hi]
+  · have : r.testBit i = false := by
+      apply Nat.testBit_lt_two_pow
+      calc r < 2 ^ k := h
+        _ ≤ 2 ^ i := Nat.pow_le_pow_right (by decide) (by omega)
+    simp [hi, this]
+
+theorem intAnd_mask (a : Int) (k : Nat) : intAnd a (((2 ^ k - 1 : Nat)) : Int) = a % 2 ^ k := by
+  cases a with
+  | ofNat n =>
+    show Int.ofNat (n &&& (2 ^ k - 1)) = _
+    rw [Nat.and_two_pow_sub_one_eq_mod]
+    simp
+  | negSucc n =>
+    show Int.ofNat (natAndNot (2 ^ k - 1) n) = _
+    have hpos : (0 : Int) < 2 ^ k := Int.pow_pos (by decide)
+    rw [Int.negSucc_emod _ hpos]
+    have hlt : n % 2 ^ k < 2 ^ k := Nat.mod_lt _ (Nat.two_pow_pos k)
+    have h1 : natAndNot (2 ^ k - 1) n = (2 ^ k - 1) - n % 2 ^ k := by
+      unfold natAndNot
+      rw [Nat.and_comm, Nat.and_two_pow_sub_one_eq_mod, xor_mask _ _ hlt]
+    rw [h1]
+    have h2 : (2:Nat) ^ k ≥ 1 := Nat.two_pow_pos k
+    simp only [Int.ofNat_eq_natCast]
+    rw [Int.natCast_sub (by omega), Int.natCast_sub h2]
+    simp
+
+theorem size_goal_b (a : Int) : intAnd a 255 = a % 2 ^ 8 := by
+  have := intAnd_mask a 8; simpa using this
+theorem size_goal_h (a : Int) : intAnd a 65535 = a % 2 ^ 16 := by
+  have := intAnd_mask a 16; simpa using this
+theorem size_goal_w (a : Int) : intAnd a 4294967295 = a % 2 ^ 32 := by
+  have := intAnd_mask a 32; simpa using this
+
+theorem fmod_neg_divisor (a b : Int) (h : b < 0) : b < a.fmod b ∧ a.fmod b ≤ 0 := by
+  have e : a.fmod b = -((-a).fmod (-b)) := by
+    have := Int.neg_fmod_neg (-a) (-b)
+    simp only [Int.neg_neg] at this
+    omega
+  have hc : 0 < -b := by omega
+  have h1 := Int.fmod_nonneg_of_pos (-a) hc
+  have h2 := Int.fmod_lt_of_pos (-a) hc
+  omega
+
+
+theorem asInt_eq (v : Val) : asInt v = Spec.needInt v := by cases v <;> rfl
+theorem pyBoolInt_eq (b : Bool) : pyBoolInt b = Spec.ofBool b := rfl
+
+
+/-! ### statements -/
+
+theorem runStmts_length (env : Env) (ss : List Stmt) (ds : List (String × Dict))
+    (h : runStmts env ss = .ok ds) : ds.length = ss.length := by
+  induction ss generalizing ds with
+  | nil => simp [runStmts] at h; subst h; rfl
+  | cons s rest ih =>
+    simp only [runStmts] at h
+    cases h1 : stmtDict env s with
+    | error e => simp [h1, bind, Except.bind] at h
+    | ok c =>
+      cases h2 : runStmts env rest with
+      | error e => simp [h1, h2, bind, Except.bind] at h
+      | ok cs =>
+        simp [h1, h2, bind, Except.bind, pure, Except.pure] at h
+        subst h
+        simp [ih cs h2]
+
+theorem runStmts_unsupported (env : Env) (ss : List Stmt) (k : String) (hk : Stmt.unsupported k ∈ ss) :
+    ∃ e, runStmts env ss = .error e := by
+  induction ss with
+  | nil => cases hk
+  | cons s rest ih =>
+    simp only [runStmts]
+    rcases List.mem_cons.mp hk with h | h
+    · subst h
+      exact ⟨_, rfl⟩
+    · obtain ⟨e, he⟩ := ih h
+      cases h1 : stmtDict env s with
+      | error e' => exact ⟨e', by simp [bind, Except.bind]⟩
+      | ok c => exact ⟨e, by simp [he, bind, Except.bind]⟩
+
+theorem runSections_error (env : Env) (secs : List Section) (sec : Section) (hs : sec ∈ secs)
+    (he : ∃ e, runStmts env sec.stmts = .error e) : ∃ e, runSections env secs = .error e := by
+  induction secs with
+  | nil => cases hs
+  | cons s rest ih =>
+    simp only [runSections]
+    cases h0 : evalE env s.id with
+    | error e' => exact ⟨e', by simp [bind, Except.bind]⟩
+    | ok i =>
+      rcases List.mem_cons.mp hs with h | h
+      · subst h
+        obtain ⟨e, he⟩ := he
+        exact ⟨e, by simp [he, bind, Except.bind]⟩
+      · obtain ⟨e, he'⟩ := ih h
+        cases h1 : runStmts env s.stmts with
+        | error e' => exact ⟨e', by simp [bind, Except.bind]⟩
+        | ok cs => exact ⟨e, by simp [he', bind, Except.bind]⟩
+
+theorem runProgram_unsupported (env : Env) (blocks : List Block) (secs : List Section) (sec : Section) (k : String)
+    (hs : sec ∈ secs) (hk : Stmt.unsupported k ∈ sec.stmts) :
+    ∃ e, runProgram env blocks secs = .error e := by
+  simp only [runProgram]
+  cases h0 : runBlocks env {} blocks with
+  | error e' => exact ⟨e', by simp [bind, Except.bind]⟩
+  | ok r =>
+    obtain ⟨env', cfg⟩ := r
+    obtain ⟨e, he⟩ := runSections_error env' secs sec hs (runStmts_unsupported env' _ k hk)
+    exact ⟨e, by simp [he, bind, Except.bind]⟩
+
+
+theorem intOf_evalE {env : Env} (hev : ∀ e, eval env.vars e = Spec.eval env.vars e) {e : Expr} {v : Int}
+    (h : Spec.intOf env e = some v) : evalE env e = .ok (.int v) := by
+  unfold Spec.intOf at h
+  unfold evalE
+  rw [hev]
+  split at h
+  · next v' hv => simp at h; subst h; rw [hv]; rfl
+  · simp at h
+
+theorem checkAddr_ok {a : Int} (h : Spec.isAddr a = true) : checkAddr a = .ok () := by
+  simp [Spec.isAddr] at h
+  simp [checkAddr]
+  omega
+
+set_option maxHeartbeats 400000 in
+theorem elab_simple (env : Env) (kbs : List KeyBlobDef) (hev : ∀ e, eval env.vars e = Spec.eval env.vars e) (c : Cmd) :
+    (∀ nsec e, Spec.cmdOf env kbs (.versionCheck nsec e) = some c → elabStmt env kbs (.versionCheck nsec e) = .ok c) ∧
+    (∀ tgt arg, Spec.cmdOf env kbs (.jump tgt arg) = some c → elabStmt env kbs (.jump tgt arg) = .ok c) ∧
+    (∀ sp tgt arg, Spec.cmdOf env kbs (.jumpSp sp tgt arg) = some c → elabStmt env kbs (.jumpSp sp tgt arg) = .ok c) ∧
+    (Spec.cmdOf env kbs .eraseUnsecureAll = some c → elabStmt env kbs .eraseUnsecureAll = .ok c) := by
+  refine ⟨?_, ?_, ?_, ?_⟩
+  · intro nsec e h
+    simp only [Spec.cmdOf, Option.bind_eq_bind, Option.bind_eq_some_iff] at h
+    obtain ⟨v, hv, hc⟩ := h
+    simp at hc
+    subst hc
+    simp [elabStmt, stmtDict, intOf_evalE hev hv, bind, Except.bind, pure, Except.pure, cmdOfDict, Dict.get?, DVal.ofVal]
+  · intro tgt arg h
+    simp only [Spec.cmdOf, Option.bind_eq_bind, Option.bind_eq_some_iff] at h
+    obtain ⟨a, ha, x, hx, hc⟩ := h
+    split at hc
+    · next haddr =>
+      simp at hc; subst hc
+      cases arg with
+      | none =>
+        simp at hx; subst hx
+        simp [elabStmt, stmtDict, intOf_evalE hev ha, bind, Except.bind, pure, Except.pure, cmdOfDict, Dict.get?, DVal.ofVal,
+          callArgDict, Dict.update, valueToInt, checkAddr_ok haddr]
+      | empty =>
+        simp at hx; subst hx
+        simp [elabStmt, stmtDict, intOf_evalE hev ha, bind, Except.bind, pure, Except.pure, cmdOfDict, Dict.get?, DVal.ofVal,
+          callArgDict, Dict.update, valueToInt, checkAddr_ok haddr]
+      | arg e =>
+        simp at hx
+        simp [elabStmt, stmtDict, intOf_evalE hev ha, intOf_evalE hev hx, bind, Except.bind, pure, Except.pure, cmdOfDict, Dict.get?, DVal.ofVal,
+          callArgDict, Dict.update, valueToInt, checkAddr_ok haddr]
+    · simp at hc
+  · intro sp tgt arg h
+    simp only [Spec.cmdOf, Option.bind_eq_bind, Option.bind_eq_some_iff] at h
+    obtain ⟨s, hs, a, ha, x, hx, hc⟩ := h
+    split at hc
+    · next haddr =>
+      simp at hc; subst hc
+      cases arg with
+      | none =>
+        simp at hx; subst hx
+        simp [elabStmt, stmtDict, intOf_evalE hev ha, intOf_evalE hev hs, bind, Except.bind, pure, Except.pure, cmdOfDict, Dict.get?, DVal.ofVal,
+          callArgDict, Dict.update, valueToInt, checkAddr_ok haddr]
+      | empty =>
+        simp at hx; subst hx
+        simp [elabStmt, stmtDict, intOf_evalE hev ha, intOf_evalE hev hs, bind, Except.bind, pure, Except.pure, cmdOfDict, Dict.get?, DVal.ofVal,
+          callArgDict, Dict.update, valueToInt, checkAddr_ok haddr]
+      | arg e =>
+        simp at hx
+        simp [elabStmt, stmtDict, intOf_evalE hev ha, intOf_evalE hev hs, intOf_evalE hev hx, bind, Except.bind, pure, Except.pure, cmdOfDict, Dict.get?, DVal.ofVal,
+          callArgDict, Dict.update, valueToInt, checkAddr_ok haddr]
+    · simp at hc
+  · intro h
+    simp [Spec.cmdOf] at h
+    subst h
+    simp [elabStmt, stmtDict, bind, Except.bind, pure, Except.pure, cmdOfDict, Dict.get?, valueToInt, checkAddr, optMemId, memFlags,
+      BdGrammar.eraseUnsecureAllAddress, BdGrammar.eraseUnsecureAllFlags]
+    decide
+
+/-- memory option: the dictionary entry the parser makes and the id the helper derives from it -/
+theorem memOpt_cases {env : Env} (hev : ∀ e, eval env.vars e = Spec.eval env.vars e) (key : String) {opt : MemOpt} {m : Int}
+    (h : Spec.memIdOf env opt = some m) :
+    (memOptDict env key opt = .ok [] ∧ m = 0) ∨
+    (∃ v, memOptDict env key opt = .ok [(key, v)] ∧ (if truthyD v then getMemId env v else .ok 0) = .ok m) := by
+  cases opt with
+  | none => left; simp [Spec.memIdOf] at h; exact ⟨rfl, h.symm⟩
+  | «at» e =>
+    right
+    simp only [Spec.memIdOf] at h
+    refine ⟨.i m, ?_, ?_⟩
+    · simp [memOptDict, intOf_evalE hev h, bind, Except.bind, pure, Except.pure, DVal.ofVal]
+    · by_cases hm : m = 0 <;> simp [truthyD, getMemId, hm]
+  | name n =>
+    right
+    simp only [Spec.memIdOf] at h
+    split at h
+    · simp at h
+    · next hn =>
+      split at h
+      · next p hp =>
+        split at h
+        · next hp2 =>
+          simp at h; subst h
+          refine ⟨.s n, rfl, ?_⟩
+          have hn' : (n != "") = true := by simpa using hn
+          simp only [truthyD, hn', if_true, getMemId, hp, hp2]
+        · simp at h
+      · simp at h
+
+
+theorem targetDict_addr {env : Env} (hev : ∀ e, eval env.vars e = Spec.eval env.vars e) {e : Expr} {a : Int}
+    (h : Spec.intOf env e = some a) : targetDict env (.addr e) = .ok [("address", .i a)] := by
+  simp [targetDict, intOf_evalE hev h, bind, Except.bind, pure, Except.pure, DVal.ofVal]
+
+theorem targetDict_range {env : Env} (hev : ∀ e, eval env.vars e = Spec.eval env.vars e) {e1 e2 : Expr} {a b : Int}
+    (h1 : Spec.intOf env e1 = some a) (h2 : Spec.intOf env e2 = some b) :
+    targetDict env (.range e1 e2) = .ok [("address", .i a), ("length", .i (b - a))] := by
+  simp [targetDict, intOf_evalE hev h1, intOf_evalE hev h2, bind, Except.bind, pure, Except.pure, liftPy, BdGrammar.rangeLength]
+
+theorem intOr_zero_left (x : Int) : intOr 0 x = x := by
+  cases x with
+  | ofNat n => show Int.ofNat (0 ||| n) = _; simp
+  | negSucc n => show Int.negSucc (natAndNot n 0) = _; simp [natAndNot]
+
+set_option maxHeartbeats 400000 in
+theorem elab_erase (env : Env) (kbs : List KeyBlobDef) (hev : ∀ e, eval env.vars e = Spec.eval env.vars e) (c : Cmd)
+    (opt : MemOpt) (t : Target) (h : Spec.cmdOf env kbs (.erase opt t) = some c) : elabStmt env kbs (.erase opt t) = .ok c := by
+  cases t with
+  | addr e =>
+    simp only [Spec.cmdOf, Option.bind_eq_bind, Option.bind_eq_some_iff] at h
+    obtain ⟨m, hm, a, ha, hc⟩ := h
+    split at hc
+    · next haddr =>
+      simp at hc; subst hc
+      rcases memOpt_cases hev "mem_opt" hm with ⟨hd, rfl⟩ | ⟨v, hd, hv⟩
+      · simp [elabStmt, stmtDict, targetDict_addr hev ha, hd, bind, Except.bind, pure, Except.pure, cmdOfDict, Dict.get?, Dict.update,
+          valueToInt, checkAddr_ok haddr, optMemId]
+        decide
+      · simp [elabStmt, stmtDict, targetDict_addr hev ha, hd, bind, Except.bind, pure, Except.pure, cmdOfDict, Dict.get?, Dict.update,
+          valueToInt, checkAddr_ok haddr, optMemId, hv, intOr_zero_left]
+    · simp at hc
+  | range e1 e2 =>
+    simp only [Spec.cmdOf, Option.bind_eq_bind, Option.bind_eq_some_iff] at h
+    obtain ⟨m, hm, a, ha, b, hb, hc⟩ := h
+    split at hc
+    · next haddr =>
+      simp at hc; subst hc
+      simp only [Bool.and_eq_true] at haddr
+      rcases memOpt_cases hev "mem_opt" hm with ⟨hd, rfl⟩ | ⟨v, hd, hv⟩
+      · simp [elabStmt, stmtDict, targetDict_range hev ha hb, hd, bind, Except.bind, pure, Except.pure, cmdOfDict, Dict.get?, Dict.update,
+          valueToInt, checkAddr_ok haddr.1, optMemId]
+        decide
+      · simp [elabStmt, stmtDict, targetDict_range hev ha hb, hd, bind, Except.bind, pure, Except.pure, cmdOfDict, Dict.get?, Dict.update,
+          valueToInt, checkAddr_ok haddr.1, optMemId, hv, intOr_zero_left]
+    · simp at hc
+
+
+set_option maxHeartbeats 400000 in
+theorem elab_eraseAll (env : Env) (kbs : List KeyBlobDef) (hev : ∀ e, eval env.vars e = Spec.eval env.vars e) (c : Cmd)
+    (opt : MemOpt) (h : Spec.cmdOf env kbs (.eraseAll opt) = some c) : elabStmt env kbs (.eraseAll opt) = .ok c := by
+  simp only [Spec.cmdOf, Option.bind_eq_bind, Option.bind_eq_some_iff] at h
+  obtain ⟨m, hm, hc⟩ := h
+  simp at hc; subst hc
+  rcases memOpt_cases hev "mem_opt" hm with ⟨hd, rfl⟩ | ⟨v, hd, hv⟩
+  · simp [elabStmt, stmtDict, hd, bind, Except.bind, pure, Except.pure, cmdOfDict, Dict.get?, Dict.update,
+      valueToInt, checkAddr, optMemId, BdGrammar.eraseAllAddress, BdGrammar.eraseAllFlags]
+  · simp [elabStmt, stmtDict, hd, bind, Except.bind, pure, Except.pure, cmdOfDict, Dict.get?, Dict.update,
+      valueToInt, checkAddr, optMemId, hv, BdGrammar.eraseAllAddress, BdGrammar.eraseAllFlags]
+
+set_option maxHeartbeats 400000 in
+theorem elab_enable (env : Env) (kbs : List KeyBlobDef) (hev : ∀ e, eval env.vars e = Spec.eval env.vars e) (c : Cmd)
+    (opt : MemOpt) (e : Expr) (h : Spec.cmdOf env kbs (.enable opt e) = some c) : elabStmt env kbs (.enable opt e) = .ok c := by
+  simp only [Spec.cmdOf, Option.bind_eq_bind, Option.bind_eq_some_iff] at h
+  obtain ⟨m, hm, a, ha, hc⟩ := h
+  simp at hc; subst hc
+  rcases memOpt_cases hev "mem_opt" hm with ⟨hd, rfl⟩ | ⟨v, hd, hv⟩
+  · simp [elabStmt, stmtDict, hd, intOf_evalE hev ha, bind, Except.bind, pure, Except.pure, cmdOfDict, Dict.get?, Dict.update,
+      valueToInt, optMemId, DVal.ofVal]
+  · simp [elabStmt, stmtDict, hd, intOf_evalE hev ha, bind, Except.bind, pure, Except.pure, cmdOfDict, Dict.get?, Dict.update,
+      valueToInt, optMemId, hv, DVal.ofVal]
+
+
+set_option maxHeartbeats 400000 in
+theorem elab_ksTo (env : Env) (kbs : List KeyBlobDef) (hev : ∀ e, eval env.vars e = Spec.eval env.vars e) (c : Cmd)
+    (opt : MemOpt) (t : Target) (h : Spec.cmdOf env kbs (.keystoreToNv opt t) = some c) :
+    elabStmt env kbs (.keystoreToNv opt t) = .ok c := by
+  cases opt with
+  | none => simp [Spec.cmdOf] at h
+  | name n => simp [Spec.cmdOf] at h
+  | «at» me =>
+    cases t with
+    | range e1 e2 => simp [Spec.cmdOf] at h
+    | addr e =>
+      simp only [Spec.cmdOf, Option.bind_eq_bind, Option.bind_eq_some_iff] at h
+      obtain ⟨m, hm, a, ha, hc⟩ := h
+      split at hc
+      · next hcond =>
+        simp at hc; subst hc
+        simp only [Bool.and_eq_true, decide_eq_true_eq] at hcond
+        obtain ⟨⟨⟨htag, h0⟩, hff⟩, haddr⟩ := hcond
+        simp [elabStmt, stmtDict, memOptDict, intOf_evalE hev hm, targetDict_addr hev ha, bind, Except.bind, pure, Except.pure,
+          cmdOfDict, Dict.get?, Dict.update, valueToInt, checkAddr_ok haddr, DVal.ofVal]
+        have hmem : m ∈ env.extMemTags := by simpa using htag
+        have hr : ¬ (m < 0 ∨ 255 < m) := by omega
+        simp [hmem, hr]
+      · simp at hc
+
+set_option maxHeartbeats 400000 in
+theorem elab_ksFrom (env : Env) (kbs : List KeyBlobDef) (hev : ∀ e, eval env.vars e = Spec.eval env.vars e) (c : Cmd)
+    (opt : MemOpt) (t : Target) (h : Spec.cmdOf env kbs (.keystoreFromNv opt t) = some c) :
+    elabStmt env kbs (.keystoreFromNv opt t) = .ok c := by
+  cases opt with
+  | none => simp [Spec.cmdOf] at h
+  | name n => simp [Spec.cmdOf] at h
+  | «at» me =>
+    cases t with
+    | range e1 e2 => simp [Spec.cmdOf] at h
+    | addr e =>
+      simp only [Spec.cmdOf, Option.bind_eq_bind, Option.bind_eq_some_iff] at h
+      obtain ⟨m, hm, a, ha, hc⟩ := h
+      split at hc
+      · next hcond =>
+        simp at hc; subst hc
+        simp only [Bool.and_eq_true, decide_eq_true_eq] at hcond
+        obtain ⟨⟨⟨htag, h0⟩, hff⟩, haddr⟩ := hcond
+        simp [elabStmt, stmtDict, memOptDict, intOf_evalE hev hm, targetDict_addr hev ha, bind, Except.bind, pure, Except.pure,
+          cmdOfDict, Dict.get?, Dict.update, valueToInt, checkAddr_ok haddr, DVal.ofVal]
+        have hmem : m ∈ env.extMemTags := by simpa using htag
+        have hr : ¬ (m < 0 ∨ 255 < m) := by omega
+        simp [hmem, hr]
+      · simp at hc
+
+
+theorem crypto_ok {kbs : List KeyBlobDef} {i st en : Int} {key ctr : String} (kind : String) (d : Dict) (addr : Int) (input : String)
+    (hd : d.get? "keyblob_id" = some (.i i))
+    (h : Spec.keyblobOf kbs i = some (st, en, key, ctr)) :
+    cryptoCmd kind kbs d addr input = .ok (.loadCrypto kind addr st en key ctr input) := by
+  unfold Spec.keyblobOf at h
+  split at h
+  · next k hk =>
+    split at h
+    · next vs ve vk vc hs he hkey hctr =>
+      split at h
+      · next hhex =>
+        simp at h
+        obtain ⟨rfl, rfl, rfl, rfl⟩ := h
+        simp only [Bool.and_eq_true] at hhex
+        simp [cryptoCmd, hd, lookupKeyblob, hk, hs, he, hkey, hctr, bind, Except.bind, pure, Except.pure, valueToInt, strOf, hhex.1, hhex.2]
+      · simp at h
+    · simp at h
+  · simp at h
+
+set_option maxHeartbeats 400000 in
+theorem elab_keywrap (env : Env) (kbs : List KeyBlobDef) (hev : ∀ e, eval env.vars e = Spec.eval env.vars e) (c : Cmd)
+    (id : Expr) (blob : String) (addr : Expr) (h : Spec.cmdOf env kbs (.keywrap id blob addr) = some c) :
+    elabStmt env kbs (.keywrap id blob addr) = .ok c := by
+  simp only [Spec.cmdOf, Option.bind_eq_bind, Option.bind_eq_some_iff] at h
+  obtain ⟨i, hi, a, ha, ⟨st, en, key, ctr⟩, hkb, hc⟩ := h
+  simp at hc; subst hc
+  simp [elabStmt, stmtDict, intOf_evalE hev hi, intOf_evalE hev ha, bind, Except.bind, pure, Except.pure, cmdOfDict, Dict.get?,
+    valueToInt, strOf, DVal.ofVal]
+  exact crypto_ok "keywrap" _ a blob (by simp [Dict.get?]) hkb
+
+
+theorem fileOf_ok {env : Env} {d : LoadData} {bs : List UInt8} (h : Spec.fileOf env d = some bs) :
+    ∃ p q, loadDataDict env d = .ok [("file", .s p)] ∧ (p != "") = true ∧ env.files.find? (fun q => q.1 == p) = some q ∧ q.2 = bs := by
+  cases d with
+  | file p =>
+    simp only [Spec.fileOf] at h
+    split at h
+    · next hp =>
+      simp only [Option.map_eq_some_iff] at h
+      obtain ⟨q, hq, rfl⟩ := h
+      exact ⟨p, q, rfl, hp, hq, rfl⟩
+    · simp at h
+  | source n =>
+    simp only [Spec.fileOf] at h
+    split at h
+    · next sp hsp =>
+      split at h
+      · next hp =>
+        simp only [Option.map_eq_some_iff] at h
+        obtain ⟨q, hq, rfl⟩ := h
+        exact ⟨sp.2, q, by simp [loadDataDict, hsp], hp, hq, rfl⟩
+      · simp at h
+    · simp at h
+  | blob hx => simp [Spec.fileOf] at h
+  | pattern e => simp [Spec.fileOf] at h
+
+set_option maxHeartbeats 400000 in
+theorem elab_encrypt (env : Env) (kbs : List KeyBlobDef) (hev : ∀ e, eval env.vars e = Spec.eval env.vars e) (c : Cmd)
+    (id : Expr) (opt : MemOpt) (d : LoadData) (t : Target) (h : Spec.cmdOf env kbs (.encrypt id opt d t) = some c) :
+    elabStmt env kbs (.encrypt id opt d t) = .ok c := by
+  cases t with
+  | range e1 e2 => simp [Spec.cmdOf] at h
+  | addr ea =>
+    simp only [Spec.cmdOf, Option.bind_eq_bind, Option.bind_eq_some_iff] at h
+    obtain ⟨i, hi, m, hm, a, ha, bs, hbs, ⟨st, en, key, ctr⟩, hkb, hc⟩ := h
+    simp at hc; subst hc
+    obtain ⟨p, q, hdd, hp, hq, rfl⟩ := fileOf_ok hbs
+    rcases memOpt_cases hev "load_opt" hm with ⟨hd, rfl⟩ | ⟨v, hd, hv⟩
+    · simp [elabStmt, stmtDict, loadStmtDict, intOf_evalE hev hi, hd, hdd, targetDict_addr hev ha, bind, Except.bind, pure, Except.pure,
+        cmdOfDict, Dict.get?, Dict.update, valueToInt, DVal.ofVal, hp, hq]
+      simp only [Spec.hexOfBytes, List.append_assoc]
+      apply crypto_ok _ _ _ _ _ hkb
+      simp [Dict.get?]
+    · simp [elabStmt, stmtDict, loadStmtDict, intOf_evalE hev hi, hd, hdd, targetDict_addr hev ha, bind, Except.bind, pure, Except.pure,
+        cmdOfDict, Dict.get?, Dict.update, valueToInt, DVal.ofVal, hp, hq]
+      simp only [Spec.hexOfBytes, List.append_assoc]
+      apply crypto_ok _ _ _ _ _ hkb
+      simp [Dict.get?]
+
+
+set_option maxHeartbeats 400000 in
+theorem elab_load_file (env : Env) (kbs : List KeyBlobDef) (hev : ∀ e, eval env.vars e = Spec.eval env.vars e) (c : Cmd)
+    (opt : MemOpt) (d : LoadData) (t : Target) (hd1 : ∀ e, d ≠ .pattern e) (hd2 : ∀ x, d ≠ .blob x)
+    (h : Spec.cmdOf env kbs (.load opt d t) = some c) : elabStmt env kbs (.load opt d t) = .ok c := by
+  simp only [Spec.cmdOf, Spec.loadCmdOf, Option.bind_eq_bind, Option.bind_eq_some_iff] at h
+  obtain ⟨m, hm, hc⟩ := h
+  cases t with
+  | range e1 e2 =>
+    cases d with
+    | pattern e => exact absurd rfl (hd1 e)
+    | blob x => exact absurd rfl (hd2 x)
+    | file p => simp at hc
+    | source n => simp at hc
+  | addr ea =>
+    have key : ∃ a bs, Spec.intOf env ea = some a ∧ Spec.fileOf env d = some bs ∧ Spec.isAddr a = true ∧ c = .load a m bs := by
+      cases d with
+      | pattern e => exact absurd rfl (hd1 e)
+      | blob x => exact absurd rfl (hd2 x)
+      | file p =>
+        simp only [Option.bind_eq_bind, Option.bind_eq_some_iff] at hc
+        obtain ⟨a, ha, bs, hbs, hc⟩ := hc
+        split at hc
+        · next haddr => simp at hc; exact ⟨a, bs, ha, hbs, haddr, hc.symm⟩
+        · simp at hc
+      | source n =>
+        simp only [Option.bind_eq_bind, Option.bind_eq_some_iff] at hc
+        obtain ⟨a, ha, bs, hbs, hc⟩ := hc
+        split at hc
+        · next haddr => simp at hc; exact ⟨a, bs, ha, hbs, haddr, hc.symm⟩
+        · simp at hc
+    obtain ⟨a, bs, ha, hbs, haddr, rfl⟩ := key
+    obtain ⟨p, q, hdd, hp, hq, rfl⟩ := fileOf_ok hbs
+    rcases memOpt_cases hev "load_opt" hm with ⟨hd, rfl⟩ | ⟨v, hd, hv⟩
+    · simp [elabStmt, stmtDict, loadStmtDict, hd, hdd, targetDict_addr hev ha, bind, Except.bind, pure, Except.pure,
+        cmdOfDict, loadCmd, Dict.get?, Dict.update, valueToInt, DVal.ofVal, hp, hq, checkAddr_ok haddr, optMemId]
+    · simp [elabStmt, stmtDict, loadStmtDict, hd, hdd, targetDict_addr hev ha, bind, Except.bind, pure, Except.pure,
+        cmdOfDict, loadCmd, Dict.get?, Dict.update, valueToInt, DVal.ofVal, hp, hq, checkAddr_ok haddr, optMemId, hv]
+
+
+theorem byteLen_zero (fuel : Nat) : byteLen fuel 0 = 0 := by cases fuel <;> simp [byteLen]
+
+theorem byteLen_le : ∀ k fuel v, v < 256 ^ k → byteLen fuel v ≤ k := by
+  intro k
+  induction k with
+  | zero => intro fuel v h; have : v = 0 := by simpa using h
+            subst this; simp [byteLen_zero]
+  | succ k ih =>
+    intro fuel v h
+    cases fuel with
+    | zero => simp [byteLen]
+    | succ f =>
+      simp only [byteLen]
+      split
+      · omega
+      · have : v / 256 < 256 ^ k := by
+          rw [Nat.div_lt_iff_lt_mul (by decide)]; rw [Nat.pow_succ] at h; omega
+        have := ih f _ this
+        omega
+
+theorem byteLen_eq : ∀ k fuel v, 256 ^ k ≤ v → v < 256 ^ (k + 1) → k < fuel → byteLen fuel v = k + 1 := by
+  intro k
+  induction k with
+  | zero =>
+    intro fuel v h1 h2 h3
+    cases fuel with
+    | zero => omega
+    | succ f =>
+      simp only [byteLen]
+      have hv : v ≠ 0 := by simp at h1; omega
+      have hd : v / 256 = 0 := by simp at h2; omega
+      simp [hv, hd, byteLen_zero]
+  | succ k ih =>
+    intro fuel v h1 h2 h3
+    cases fuel with
+    | zero => omega
+    | succ f =>
+      simp only [byteLen]
+      have hpos : 0 < 256 ^ (k + 1) := Nat.pow_pos (by decide)
+      have hv : v ≠ 0 := by omega
+      have h1' : 256 ^ k ≤ v / 256 := by
+        rw [Nat.le_div_iff_mul_le (by decide)]; rw [Nat.pow_succ] at h1; omega
+      have h2' : v / 256 < 256 ^ (k + 1) := by
+        rw [Nat.div_lt_iff_lt_mul (by decide)]; rw [Nat.pow_succ] at h2; omega
+      simp [hv, ih f _ h1' h2' (by omega)]
+      omega
+
+theorem bytesCnt_le4 (v : Nat) (h : v < 2 ^ 32) : bytesCnt v ≤ 4 := by
+  unfold bytesCnt
+  split
+  · omega
+  · have e : (256 : Nat) ^ 4 = 2 ^ 32 := by decide
+    have : byteLen (v + 1) v ≤ 4 := byteLen_le 4 _ _ (by omega)
+    dsimp only
+    split <;> omega
+
+
+set_option maxHeartbeats 400000 in
+theorem elab_load_pattern_prog (env : Env) (kbs : List KeyBlobDef) (hev : ∀ e, eval env.vars e = Spec.eval env.vars e)
+    (opt : MemOpt) (hopt : opt ≠ .none) (e ea : Expr) (m p a : Int)
+    (hm : Spec.memIdOf env opt = some m) (hp : Spec.intOf env e = some p) (ha : Spec.intOf env ea = some a)
+    (hc : (m == 4 && decide (0 < p) && decide (p ≤ 0xFFFFFFFF) && Spec.isAddr a) = true) :
+    elabStmt env kbs (.load opt (.pattern e) (.addr ea)) = .ok (.prog a m p 0) := by
+  simp only [Bool.and_eq_true, decide_eq_true_eq, beq_iff_eq] at hc
+  obtain ⟨⟨⟨rfl, hp0⟩, hp1⟩, haddr⟩ := hc
+  rcases memOpt_cases hev "load_opt" hm with ⟨hd, h0⟩ | ⟨v, hd, hv⟩
+  · omega
+  · have hvt : truthyD v = true := by
+      by_cases ht : truthyD v = true
+      · exact ht
+      · simp [ht] at hv
+    simp only [hvt, if_true] at hv
+    have hpne : truthyD (.i p) = true := by simp [truthyD]; omega
+    have hp1' : ¬ 4294967295 < p := by omega
+    have hbc : bytesCnt p.toNat ≤ 4 := bytesCnt_le4 _ (by omega)
+    have hneg : ¬ p < 0 := by omega
+    have hr1 : ¬ (p < 0 ∨ 4294967295 < p) := by omega
+    simp [elabStmt, stmtDict, loadStmtDict, hd, loadDataDict, intOf_evalE hev hp, targetDict_addr hev ha, bind, Except.bind, pure, Except.pure,
+      cmdOfDict, loadCmd, progCmd, Dict.get?, Dict.update, valueToInt, checkAddr_ok haddr, optMemId, hv, hvt, hpne, hbc, hneg, hr1, hp1']
+
+
+/-- the 4-byte fill word the model computes from a pattern -/
+def modelFillWord (P : Nat) : Option (List UInt8) :=
+  let n0 := byteLen (P + 1) P
+  let n := if n0 == 0 then 1 else if n0 == 3 then 4 else n0
+  if n != 1 && n != 2 && n != 4 then none else some (List.replicate (4 / n) (natBytesBE n P)).flatten
+
+theorem fillWord_model (p : Int) (w : List UInt8) (h : Spec.fillWord p = some w) :
+    ¬ p < 0 ∧ modelFillWord p.toNat = some w := by
+  unfold Spec.fillWord at h
+  split at h
+  · simp at h
+  · next hneg =>
+    refine ⟨hneg, ?_⟩
+    have hP : (p.toNat : Int) = p := Int.toNat_of_nonneg (by omega)
+    generalize hPd : p.toNat = P at *
+    split at h
+    · next h1 =>
+      simp at h; subst h
+      have hlt : P < 256 := by omega
+      by_cases hz : P = 0
+      · subst hz
+        simp [modelFillWord, byteLen, natBytesBE, List.replicate]
+      · have hb : byteLen (P + 1) P = 1 := byteLen_eq 0 _ _ (by simp; omega) (by simpa using hlt) (by omega)
+        simp [modelFillWord, hb, natBytesBE, List.replicate, Nat.mod_eq_of_lt hlt]
+    · next h1 =>
+      split at h
+      · next h2 =>
+        simp at h; subst h
+        have hlo : 256 ≤ P := by omega
+        have hlt : P < 65536 := by omega
+        have hb : byteLen (P + 1) P = 2 := byteLen_eq 1 _ _ (by simpa using hlo) (by simpa using hlt) (by omega)
+        have hd : P / 256 % 256 = P / 256 := Nat.mod_eq_of_lt (by omega)
+        simp [modelFillWord, hb, natBytesBE, List.replicate, hd]
+      · next h2 =>
+        split at h
+        · next h3 =>
+          simp at h; subst h
+          have hlo : 65536 ≤ P := by omega
+          have hlt : P < 4294967296 := by omega
+          have hd1 : P / 256 / 256 / 256 % 256 = P / 2 ^ 24 := by
+            have : (2:Nat) ^ 24 = 16777216 := by decide
+            omega
+          have hd2 : P / 256 / 256 % 256 = P / 2 ^ 16 % 256 := by
+            have : (2:Nat) ^ 16 = 65536 := by decide
+            omega
+          by_cases hmid : P < 16777216
+          · have hb : byteLen (P + 1) P = 3 := byteLen_eq 2 _ _ (by simpa using hlo) (by simpa using hmid) (by omega)
+            simp [modelFillWord, hb, natBytesBE, List.replicate, hd1, hd2]
+          · have hb : byteLen (P + 1) P = 4 := byteLen_eq 3 _ _ (by simp; omega) (by simpa using hlt) (by omega)
+            simp [modelFillWord, hb, natBytesBE, List.replicate, hd1, hd2]
+        · simp at h
+
+theorem fillCmd_core (addr p : Int) (w : List UInt8) (len : Int)
+    (hw : Spec.fillWord p = some w) (haddr : Spec.isAddr addr = true) (hmod : Int.fmod len 4 = 0) :
+    (if Int.fmod len 4 != 0 then (spsdkErr : R Cmd)
+     else if p < 0 then otherErr
+     else
+      let P := p.toNat
+      let n0 := byteLen (P + 1) P
+      let n := if n0 == 0 then 1 else if n0 == 3 then 4 else n0
+      if n != 1 && n != 2 && n != 4 then spsdkErr
+      else
+        let bytes := natBytesBE n P
+        let rep := (List.replicate (4 / n) bytes).flatten
+        match checkAddr addr with
+        | .error e => .error e
+        | .ok _ => .ok (.fill addr rep len)) = .ok (.fill addr w len) := by
+  obtain ⟨hneg, hm⟩ := fillWord_model p w hw
+  unfold modelFillWord at hm
+  dsimp only at hm ⊢
+  generalize (if (byteLen (p.toNat + 1) p.toNat == 0) = true then 1
+      else if (byteLen (p.toNat + 1) p.toNat == 3) = true then 4 else byteLen (p.toNat + 1) p.toNat) = N at hm ⊢
+  have hmod' : ¬ ((len.fmod 4 != 0) = true) := by rw [hmod]; decide
+  split at hm
+  · simp at hm
+  · next hn =>
+    simp only [Option.some.injEq] at hm
+    rw [if_neg hmod', if_neg hneg, if_neg hn, checkAddr_ok haddr, hm]
+
+theorem fillCmd_none (addr p : Int) (w : List UInt8) (hw : Spec.fillWord p = some w) (haddr : Spec.isAddr addr = true) :
+    fillCmd addr p none = .ok (.fill addr w 4) := by
+  unfold fillCmd
+  exact fillCmd_core addr p w 4 hw haddr (by decide)
+
+theorem fillCmd_some (addr p l : Int) (w : List UInt8) (hw : Spec.fillWord p = some w) (haddr : Spec.isAddr addr = true)
+    (hl : l ≠ 0) (hmod : Int.fmod l 4 = 0) :
+    fillCmd addr p (some l) = .ok (.fill addr w l) := by
+  unfold fillCmd
+  have : (if (l != 0) = true then l else 4) = l := by simp [hl]
+  simp only [this]
+  exact fillCmd_core addr p w l hw haddr hmod
+
+
+set_option maxHeartbeats 400000 in
+theorem elab_load_pattern (env : Env) (kbs : List KeyBlobDef) (hev : ∀ e, eval env.vars e = Spec.eval env.vars e) (c : Cmd)
+    (opt : MemOpt) (e : Expr) (t : Target)
+    (h : Spec.cmdOf env kbs (.load opt (.pattern e) t) = some c) : elabStmt env kbs (.load opt (.pattern e) t) = .ok c := by
+  simp only [Spec.cmdOf, Spec.loadCmdOf, Option.bind_eq_bind, Option.bind_eq_some_iff] at h
+  obtain ⟨m, hm, p, hp, hc⟩ := h
+  cases opt with
+  | none =>
+    simp only [Option.bind_eq_bind, Option.bind_eq_some_iff] at hc
+    obtain ⟨w, hw, hc⟩ := hc
+    cases t with
+    | addr ea =>
+      simp only [Option.bind_eq_bind, Option.bind_eq_some_iff] at hc
+      obtain ⟨a, ha, hc⟩ := hc
+      split at hc
+      · next haddr =>
+        simp at hc; subst hc
+        simp [elabStmt, stmtDict, loadStmtDict, memOptDict, loadDataDict, intOf_evalE hev hp, targetDict_addr hev ha, bind, Except.bind,
+          pure, Except.pure, cmdOfDict, Dict.get?, Dict.update, valueToInt, fillCmd_none a p w hw haddr]
+      · simp at hc
+    | range e1 e2 =>
+      simp only [Option.bind_eq_bind, Option.bind_eq_some_iff] at hc
+      obtain ⟨a, ha, b, hb, hc⟩ := hc
+      split at hc
+      · next hcond =>
+        simp at hc; subst hc
+        simp only [Bool.and_eq_true, decide_eq_true_eq, beq_iff_eq] at hcond
+        obtain ⟨⟨haddr, hlt⟩, hmod⟩ := hcond
+        have hl : b - a ≠ 0 := by omega
+        have hmod' : Int.fmod (b - a) 4 = 0 := by
+          rw [Int.fmod_eq_emod_of_nonneg _ (by decide)]; exact hmod
+        simp [elabStmt, stmtDict, loadStmtDict, memOptDict, loadDataDict, intOf_evalE hev hp, targetDict_range hev ha hb, bind, Except.bind,
+          pure, Except.pure, cmdOfDict, Dict.get?, Dict.update, valueToInt, fillCmd_some a p (b - a) w hw haddr hl hmod']
+      · simp at hc
+  | «at» me =>
+    cases t with
+    | range e1 e2 => simp at hc
+    | addr ea =>
+      simp only [Option.bind_eq_bind, Option.bind_eq_some_iff] at hc
+      obtain ⟨a, ha, hc⟩ := hc
+      split at hc
+      · next hcond =>
+        simp at hc; subst hc
+        exact elab_load_pattern_prog env kbs hev _ (by simp) e ea m p a hm hp ha hcond
+      · simp at hc
+  | name n =>
+    cases t with
+    | range e1 e2 => simp at hc
+    | addr ea =>
+      simp only [Option.bind_eq_bind, Option.bind_eq_some_iff] at hc
+      obtain ⟨a, ha, hc⟩ := hc
+      split at hc
+      · next hcond =>
+        simp at hc; subst hc
+        exact elab_load_pattern_prog env kbs hev _ (by simp) e ea m p a hm hp ha hcond
+      · simp at hc
+
+/-- every supported statement other than a blob load becomes exactly the command the Spec states -/
+theorem elab_one_cmd_noblob (env : Env) (kbs : List KeyBlobDef) (hev : ∀ e, eval env.vars e = Spec.eval env.vars e)
+    (s : Stmt) (c : Cmd) (h1 : Spec.isBlobLoad s = false) (h : Spec.cmdOf env kbs s = some c) : elabStmt env kbs s = .ok c := by
+  cases s with
+  | load opt d t =>
+    cases d with
+    | blob x => simp [Spec.isBlobLoad] at h1
+    | pattern e => exact elab_load_pattern env kbs hev c opt e t h
+    | file p => exact elab_load_file env kbs hev c opt _ t (fun _ h => by cases h) (fun _ h => by cases h) h
+    | source n => exact elab_load_file env kbs hev c opt _ t (fun _ h => by cases h) (fun _ h => by cases h) h
+  | erase opt t => exact elab_erase env kbs hev c opt t h
+  | eraseAll opt => exact elab_eraseAll env kbs hev c opt h
+  | eraseUnsecureAll => exact (elab_simple env kbs hev c).2.2.2 h
+  | enable opt e => exact elab_enable env kbs hev c opt e h
+  | call tgt a => simp [Spec.cmdOf] at h
+  | jump tgt a => exact (elab_simple env kbs hev c).2.1 tgt a h
+  | jumpSp sp tgt a => exact (elab_simple env kbs hev c).2.2.1 sp tgt a h
+  | reset => simp [Spec.cmdOf] at h
+  | versionCheck nsec e => exact (elab_simple env kbs hev c).1 nsec e h
+  | keystoreToNv opt t => exact elab_ksTo env kbs hev c opt t h
+  | keystoreFromNv opt t => exact elab_ksFrom env kbs hev c opt t h
+  | keywrap id blob addr => exact elab_keywrap env kbs hev c id blob addr h
+  | encrypt id opt d t => exact elab_encrypt env kbs hev c id opt d t h
+  | unsupported k => simp [Spec.cmdOf] at h
+
 
 end SpsdkVerif.Bd
